@@ -483,6 +483,45 @@ void add_s6b(mc::Runner &R, const std::string &name, int W, int H, bool quick, b
   R.add(s);
 }
 
+// ------------------------------------------------------------------ S6c: grids with every set of at most K removed cells
+void add_s6c(mc::Runner &R, const std::string &name, int W, int H, int K, bool quick, bool thorough) {
+  const uint64_t sets = gs::removed_cell_sets(W * H, K);
+  // (cfg 4: eb standard s0, eb valence s0, eb standard s5, sequential s10) x (diagonals 2) x (positions float q11 / int32) x removed set
+  mc::Radix rx{4, 2, 2, sets};
+  auto make = [=](uint64_t idx, GeomDef *g, EncCfg *c) {
+    auto d = rx.decode(idx);
+    *g = gs::tri_subset_mesh(W, H, (int)d[1], gs::grid_minus_cells_mask(W, H, K, d[3]), d[2] == 1);
+    static const int mk[4] = {2, 3, 2, 0}, sp[4] = {0, 0, 5, 10};
+    *c = gs::mesh_cfg(mk[d[0]], sp[d[0]]);
+    c->qbits = {d[2] == 1 ? 0 : 11};
+  };
+  mc::Space s;
+  s.name = name;
+  s.size = rx.size();
+  s.quick = quick;
+  s.thorough = thorough;
+  s.run = [=](uint64_t idx, mc::Ctx &ctx) {
+    GeomDef g;
+    EncCfg c;
+    make(idx, &g, &c);
+    auto r = rt::check_roundtrip(g, c, ctx, "", !g_c09, g_c09);
+    if (r.decoded && g.faces.size() >= 4) {
+      ctx.count("cases_with_grid_minus_cells");
+      ctx.nontrivial_unique();
+    }
+  };
+  s.describe = [=](uint64_t idx) {
+    GeomDef g;
+    EncCfg c;
+    make(idx, &g, &c);
+    auto d = rx.decode(idx);
+    std::string cells;
+    for (int cc : gs::unrank_cell_set(W * H, K, d[3])) cells += (cells.empty() ? "" : ",") + std::to_string(cc);
+    return std::to_string(W) + "x" + std::to_string(H) + " cell grid without cells {" + cells + "} (diagonals " + (d[1] ? "alternating" : "uniform") + ") " + text(c);
+  };
+  R.add(s);
+}
+
 // ------------------------------------------------------------------ S9: point clouds with clusters of coincident points and explicit point->value maps
 // kd-tree cells stop splitting when all axes are exhausted (>= 64 coincident points take a special path); attributes whose
 // point->value map is not the identity (deduplicated or permuted storage) must still give every point its own values.
@@ -1247,6 +1286,8 @@ int main(int argc, char **argv) {
     add_s6(R, "S6_subgrids_3x3", 3, 3, true, true);
     add_s6(R, "S6_subgrids_4x4", 4, 4, true, true);
     add_s6(R, "S6_subgrids_5x4", 5, 4, false, true);
+    add_s6c(R, "S6c_grid_5x5_minus_up_to_3_cells", 5, 5, 3, true, true);
+    add_s6c(R, "S6c_grid_6x5_minus_up_to_4_cells", 6, 5, 4, false, true);
     add_s6b(R, "S6b_triangle_subsets_3x3", 3, 3, true, true);
     add_s6b(R, "S6b_triangle_subsets_4x3", 4, 3, false, true);
     add_s2b(R, "S2b_F2_two_attributes_reduced", &g_topos_f2_only, false, {0}, true, false, true);
